@@ -22,6 +22,11 @@ Output: one observation per op, joined by ` | `.  See `harness/cachecommon.py` f
 namespace Zc.Driver.C05
 open Zc
 
+/-- the driver's `str.lower`: ASCII and the Latin-1 capitals (U+00C0–U+00DE except ×), which is what `str.lower` does to every
+character of the harness vocabularies (theorems take an arbitrary `lower`) -/
+def lowerD (s : String) : String :=
+  s.map (fun c => if 0xC0 ≤ c.toNat ∧ c.toNat ≤ 0xDE ∧ c.toNat ≠ 0xD7 then Char.ofNat (c.toNat + 32) else c.toLower)
+
 def sep (s : String) (l : List String) : String := if l.isEmpty then "~" else s.intercalate l
 
 def recStr (r : Rec) : String := r.toLine
@@ -40,7 +45,7 @@ structure Probes where
   now : Ms := 0
 
 def readersStr (p : Probes) (c : Cache) : String :=
-  let l := asciiLower
+  let l := lowerD
   let n := sep "," ((c.names).map hexOfStr)
   let e := sep ";" (p.names.map (fun k => recsStr (c.entriesWithName l k)))
   let s := sep ";" (p.names.map (fun k => recsStr (c.entriesWithServer l k)))
@@ -134,7 +139,7 @@ def changeStr : Change → String | .added => "A" | .removed => "R" | .updated =
 
 /-- callbacks of one batch: stable-sorted by (browser id, lower-cased name, type) -/
 def cbStr (cbs : List (Nat × Callback)) : String :=
-  let keyed := cbs.map (fun (p : Nat × Callback) => ((p.1, hexOfStr (asciiLower p.2.name), hexOfStr p.2.type), s!"{p.1}:{changeStr p.2.change}:{hexOfStr p.2.type}:{hexOfStr p.2.name}"))
+  let keyed := cbs.map (fun (p : Nat × Callback) => ((p.1, hexOfStr (lowerD p.2.name), hexOfStr p.2.type), s!"{p.1}:{changeStr p.2.change}:{hexOfStr p.2.type}:{hexOfStr p.2.name}"))
   let sorted := keyed.mergeSort (fun a b => a.1.1 < b.1.1 || (a.1.1 == b.1.1 && (a.1.2.1 < b.1.2.1 || (a.1.2.1 == b.1.2.1 && a.1.2.2 ≤ b.1.2.2))))
   sep "," (sorted.map (fun x => x.2))
 
@@ -143,7 +148,7 @@ def pairsStr (us : List (Rec × Option Rec)) : String :=
 
 /-- phase 1 of every browser, then phase 2, as the record manager drives them -/
 def browsersUpdate (h : Host) (c1 : Cache) (now : Ms) (us : List (Rec × Option Rec)) : List (Nat × Browser) :=
-  h.browsers.map (fun ib => (ib.1, Browser.updateRecords asciiLower possibleTypes c1 now ib.2 us))
+  h.browsers.map (fun ib => (ib.1, Browser.updateRecords lowerD possibleTypes c1 now ib.2 us))
 
 def browsersComplete (bs : List (Nat × Browser)) : List (Nat × Browser) × List (Nat × Callback) :=
   (bs.map (fun ib => (ib.1, (Browser.complete ib.2).1)), bs.flatMap (fun ib => (Browser.complete ib.2).2.map (fun cb => (ib.1, cb))))
@@ -171,7 +176,7 @@ def hostR (h : Host) : HostR := { cache := h.cache, listeners := h.listeners, br
 /-- the ops of a history in which some service listener still has a plan (it may create a browser from inside a handler): the
 composite of `Zc/Model/BrowserReentrant.lean` -/
 def stepPlans (p : Probes) (h : Host) (op : Op) : Option (Host × String) :=
-  let l := asciiLower
+  let l := lowerD
   let fuel := 24
   match op with
   | .dg now recs _ =>
@@ -217,7 +222,7 @@ def stepPlans (p : Probes) (h : Host) (op : Op) : Option (Host × String) :=
   | _ => none
 
 def stepPlain (p : Probes) (h : Host) (op : Op) : Host × String :=
-  let l := asciiLower
+  let l := lowerD
   match op with
   | .wire .. => (h, "bad-op")
   | .dg now recs reacts =>
